@@ -6,7 +6,9 @@
        get_next_event, sane_event, build_complete_event, __next__               -> [init_file], [sane], [fnext]
      MultifileIngest.__iter__ (prefill), __next__ (pop / refill / disable / silent drop of an event
        whose file is disabled), update_event_front (append + stable descending sort),
-       disable_ingest                                                           -> [prefill], [step], [run], [multi]
+       disable_ingest                                              -> [refill], [prefill], [step], [run], [multi]
+   Specification-level definitions used by the theorems (not executed by the tie): [fstream_o] (whole
+   per-file stream), tokens / [expected] / [first_rank] (well-formed files of the property's domain).
 
    Faithful to what the code does today, including:
      * `ph in "XBE"`, `ph in "BE"`, `ph in "Mbei"` are SUBSTRING tests ("" and "BE" qualify);
